@@ -440,7 +440,8 @@ func (r *Relayer) handleCallReq(f *lazyCallReq) (shouldRelease bool, _ error) {
 			return _relayShouldRelease, nil
 		}
 		if _, ok := err.(SystemError); !ok {
-			err = NewSystemError(ErrCodeDeclined, err.Error())
+			// The relay host's message must not be interpreted as a format string.
+			err = SystemError{code: ErrCodeDeclined, msg: err.Error()}
 		}
 		if call != nil {
 			call.Failed(GetSystemErrorCode(err).relayMetricsKey())
